@@ -24,6 +24,8 @@ RULE = (
     "index, column: value}} built from the database, equal between variants; one case in four "
     "runs six fetches in a row on ONE client (nothing may carry over). Non-trivial: "
     ">=1 cell; distinct by (columns, row indexes, sparsity pattern, variant, bulk, level)."
+    " One fixed table has indexes that bring the instance OIDs to 126/127/128 sub-identifiers"
+    " and index components at the BER / 32-bit boundaries."
 )
 ASSUMPTIONS = [
     "table() is addressed by the entry OID and bulktable() by the table OID, as their documentation and tests prescribe",
